@@ -70,3 +70,67 @@ def rebuild(ctx, rep):
                     else:
                         rep.proved("R-C33-rebuild", where, f"all of {params} passed on")
     rep.floor("operators re-created by device-layer transforms", n, 1)
+
+
+def modes(ctx, rep):
+    """R-C33-modes — Device.preprocess_transforms derives two capability views, `self.capabilities.filter(finite_shots=False)` and
+    `…(finite_shots=True)`, and passes per-mode conditions in keyword pairs (`stopping_condition` / `stopping_condition_shots`,
+    `analytic_measurements` / `sample_measurements`).  The finite-shot member of a pair must be computed from the finite-shot view
+    and the analytic member from the analytic view; a member that reads only the *other* mode's view validates circuits against the
+    wrong capabilities (an observable / measurement the device supports only analytically is let through with shots)."""
+    ix = ctx.index
+    rep.rule("R-C33-modes", "in Device.preprocess_transforms, for each keyword pair (k, k_shots) / (analytic_measurements, sample_measurements) of "
+             "an add_transform call: after reading through locals, the finite-shot member does not read the analytic capabilities view without "
+             "the finite-shot one, and vice versa")
+    REL = "pennylane/devices/device_api.py"
+    f = ix.func(REL, "Device.preprocess_transforms")
+    rep.analysed(REL, f.qualname)
+    views = {}
+    defs = {}
+    for st in ast.walk(f.node):
+        if isinstance(st, ast.Assign) and len(st.targets) == 1 and isinstance(st.targets[0], ast.Name):
+            defs.setdefault(st.targets[0].id, []).append(st.value)
+            v = st.value
+            if isinstance(v, ast.Call) and isinstance(v.func, ast.Attribute) and v.func.attr == "filter":
+                for kw in v.keywords:
+                    if kw.arg == "finite_shots" and isinstance(kw.value, ast.Constant) and isinstance(kw.value.value, bool):
+                        views[st.targets[0].id] = "shots" if kw.value.value else "analytic"
+    if set(views.values()) != {"shots", "analytic"}:
+        rep.unknown("R-C33-modes", f"{REL}:{f.qualname}", "the two capability views (filter(finite_shots=…)) were not found as locals")
+        return
+
+    def reads(e, depth=0, seen=()):
+        out = set()
+        for x in ast.walk(e):
+            if isinstance(x, ast.Name):
+                if x.id in views:
+                    out.add(views[x.id])
+                elif x.id in defs and len(defs[x.id]) == 1 and depth < 4 and x.id not in seen:
+                    out |= reads(defs[x.id][0], depth + 1, seen + (x.id,))
+        return out
+    n = 0
+    for c in ast.walk(f.node):
+        if not (isinstance(c, ast.Call) and isinstance(c.func, ast.Attribute) and c.func.attr == "add_transform"):
+            continue
+        kws = {k.arg: k.value for k in c.keywords if k.arg}
+        pairs = [(k, k + "_shots") for k in kws if k + "_shots" in kws]
+        if "analytic_measurements" in kws and "sample_measurements" in kws:
+            pairs.append(("analytic_measurements", "sample_measurements"))
+        for ka, ks in pairs:
+            n += 1
+            ra, rs = reads(kws[ka]), reads(kws[ks])
+            where = f"{REL}:{f.qualname} {norm(c.args[0]) if c.args else '?'}({ka}=, {ks}=)"
+            if rs == {"analytic"}:
+                rep.refuted("R-C33-modes", REL, f.qualname, f"{norm(c.args[0]) if c.args else '?'}: {ks} reads the analytic view only",
+                            f"`{ks}` of {norm(c.args[0]) if c.args else 'the transform'} is computed from the analytic capabilities "
+                            "(filter(finite_shots=False)) and never from the finite-shot ones: with shots, circuits are validated / decomposed against what the "
+                            "device supports analytically", line=kws[ks].lineno)
+            elif ra == {"shots"}:
+                rep.refuted("R-C33-modes", REL, f.qualname, f"{norm(c.args[0]) if c.args else '?'}: {ka} reads the finite-shot view only",
+                            f"`{ka}` of {norm(c.args[0]) if c.args else 'the transform'} is computed from the finite-shot capabilities only: analytic "
+                            "executions are validated against the wrong capabilities", line=kws[ka].lineno)
+            elif "shots" in rs and "analytic" in ra:
+                rep.proved("R-C33-modes", where, "each member reads the view of its own mode")
+            else:
+                rep.unknown("R-C33-modes", where, f"views read: {sorted(ra)} / {sorted(rs)}")
+    rep.floor("per-mode keyword pairs in Device.preprocess_transforms", n, 4)
